@@ -97,11 +97,30 @@ def theorems_in(relpath):
     return re.findall(r'^\s*(?:Theorem|Corollary)\s+([\w\']+)', txt, re.M)
 
 
-def scan_forbidden():
-    """no Admitted/admit/Axiom/Parameter/... anywhere in the hand-written or generated development."""
+def deps_of(targets):
+    """transitive .v sources a set of .vo targets depends on (from coq_makefile's .Makefile.d)"""
+    dep = {}
+    try:
+        for line in open(os.path.join(COQ, '.Makefile.d')):
+            if '.vo ' in line.split(':')[0] + ' ' and ':' in line:
+                lhs, rhs = line.split(':', 1)
+                tg = [x for x in lhs.split() if x.endswith('.vo')]
+                if tg: dep[tg[0]] = [x for x in rhs.split() if x.endswith('.vo')]
+    except OSError:
+        return None
+    seen, todo = set(), list(targets)
+    while todo:
+        t = todo.pop()
+        if t in seen: continue
+        seen.add(t); todo += dep.get(t, [])
+    return sorted(x[:-1] for x in seen)
+
+
+def scan_forbidden(sources=None):
+    """no Admitted/admit/Axiom/Parameter/... in the given sources (default: the whole development)."""
     bad = []
     pat = re.compile(r'\b(Admitted|admit|Axiom|Axioms|Parameter|Parameters|Conjecture|Admit Obligations|Unset Guard Checking|bypass_check|Unset Universe Checking|Unset Positivity Checking)\b')
-    for rel in coq_sources():
+    for rel in (sources if sources is not None else coq_sources()):
         txt = open(os.path.join(COQ, rel)).read()
         txt = re.sub(r'\(\*.*?\*\)', '', txt, flags=re.S)
         for m in pat.finditer(txt):
@@ -264,11 +283,13 @@ class Ctx:
         for r in relpaths: names += theorems_in(r)
         self.cov['obligations'] = len(names)
         self.cov['checker_cmd'] = 'make -C /verif/coq ' + ' '.join(r[:-2] + '.vo' for r in relpaths) + '  (coqc 8.16.1, full .vo)'
-        bad = scan_forbidden()
+        r = build([p[:-2] + '.vo' for p in relpaths], timeout=timeout)
+        srcs = deps_of([p[:-2] + '.vo' for p in relpaths])
+        bad = scan_forbidden(srcs)
+        self.notes['sources_checked'] = srcs
         if bad:
             self.notes['forbidden'] = bad
-            return {'ok': False, 'lemma': None, 'file': None, 'msg': 'forbidden vernacular: ' + '; '.join(bad), 'out': ''}
-        r = build([p[:-2] + '.vo' for p in relpaths], timeout=timeout)
+            return {'ok': False, 'lemma': None, 'file': None, 'line': None, 'msg': 'forbidden vernacular: ' + '; '.join(bad), 'out': ''}
         self.notes['theorems'] = names
         if r['ok']:
             self.cov['discharged'] = len(names)
